@@ -33,7 +33,9 @@ def enumerate_faults(cols: dict, roots: list, types: dict) -> list:
     faults = [{"cls": "F1"}]
     pid = cols["p_id"]
     for i in range(n):
-        for j in range(n):
+        # large tables: not all n*(n-1) pairs, but neighbours and the two ends
+        js = range(n) if n <= 40 else sorted({(i + 1) % n, (i - 1) % n, 0, n - 1, (i + n // 2) % n})
+        for j in js:
             if i != j:
                 faults.append({"cls": "F2", "row": i, "from": j})
     fk = [c for c in foreign_keys() if c in cols]
@@ -261,6 +263,11 @@ def judge_fault(df, fault, params, functions, types, form="frame", live=None):
     data = bad
     if form == "dict" and fault["cls"] != "F8":
         data = {c: bad[c] for c in bad.columns}
+    elif form == "dict_idx" and fault["cls"] != "F8":
+        import pandas as pd
+
+        idx = pd.Index([f"r{(7 * i) % len(bad)}_{i}" for i in range(len(bad))])
+        data = {c: pd.Series(bad[c].to_numpy(), index=idx, name=c) for c in bad.columns}
     res = compare.run_call(data, params, functions)
     if res[0] == "exc":
         return "rejected", res[1]
@@ -292,8 +299,15 @@ def judge_variant(df, variant, base_res, params, functions):
 # ------------------------------------------------------------------ exploration
 
 
-def _base_population(r, year, stat, rows, params, functions, types):
+def _base_population(r, year, stat, rows, params, functions, types, crowd=0):
     for _ in range(12):
+        if crowd:
+            pop = popgen.generate_crowd(r.randrange(1 << 30), year, crowd, stat_values=stat)
+            df = popgen.to_frame(pop, types=types)
+            res = compare.run_call(df, params, functions)
+            if res[0] == "frame":
+                return pop, df, res
+            continue
         pop = popgen.generate(r.randrange(1 << 30), year, min_rows=rows[0], max_rows=r.randint(*rows), stat_values=stat, id_mode=r.choice(["dense", "offset", "sparse_sorted", "sparse_shuffled"]))
         df = popgen.to_frame(pop, types=types)
         res = compare.run_call(df, params, functions)
@@ -316,7 +330,11 @@ def explore(run_seed: int, cfg: dict) -> dict:
         return out
     types = popgen.input_types()
     stat = popgen.stat_values_from_params(params)
-    pop, df, base = _base_population(r, int(date[:4]), stat, cfg.get("rows", (2, 7)), params, functions, types)
+    crowd = 0
+    if not cfg.get("exhaustive") and r.random() < cfg.get("crowd_p", 0.0):
+        crowd = r.choice([270, 1100])  # checks must not depend on the size of the table or the position of the faulty row in it
+    out["crowd"] = crowd
+    pop, df, base = _base_population(r, int(date[:4]), stat, cfg.get("rows", (2, 7)), params, functions, types, crowd=crowd)
     if pop is None:
         out["setup"] = "no computable base population"
         return out
@@ -338,8 +356,7 @@ def explore(run_seed: int, cfg: dict) -> dict:
         chosen = []
         for k in sorted(byc):
             chosen += r.sample(byc[k], min(len(byc[k]), cfg.get("per_class", 3)))
-        rest = [f for f in space if f not in chosen]
-        chosen += r.sample(rest, min(len(rest), cfg.get("extra", 10)))
+        chosen += r.sample(space, min(len(space), cfg.get("extra", 10)))
     pid = cols["p_id"]
     roles = _row_roles(cols)
     live = df.copy()
@@ -348,7 +365,7 @@ def explore(run_seed: int, cfg: dict) -> dict:
         u = r.random()
         form = "frame"
         if not cfg.get("exhaustive"):
-            form = "dict" if u < 0.2 else "inplace" if u < 0.45 and f["cls"] not in ("F1", "F7", "F8") else "frame"
+            form = "dict" if u < 0.15 else "dict_idx" if u < 0.25 else "inplace" if u < 0.45 and f["cls"] not in ("F1", "F7", "F8") else "frame"
         verdict, exc = judge_fault(df, f, params, functions, types, form, live)
         if verdict == "inapplicable":
             out["inapplicable"] += 1
@@ -446,7 +463,7 @@ def _minimise_fault(case, params, functions, types):
             bad = apply_fault(bad, f, types)
             if bad is None:
                 return False
-        data = {k: bad[k] for k in bad.columns} if c.get("form") == "dict" and all(f["cls"] != "F8" for f in c["faults"]) else bad
+        data = {k: bad[k] for k in bad.columns} if c.get("form") in ("dict", "dict_idx") and all(f["cls"] != "F8" for f in c["faults"]) else bad
         try:
             return compare.run_call(data, params, functions)[0] != "exc"
         except Exception:  # noqa: BLE001
@@ -459,7 +476,7 @@ def _minimise_fault(case, params, functions, types):
             if accepted(c):
                 cur = c
                 break
-    if cur.get("form") in ("dict", "inplace") and accepted({**cur, "form": "frame"}):
+    if cur.get("form") in ("dict", "dict_idx", "inplace") and accepted({**cur, "form": "frame"}):
         cur = {**cur, "form": "frame"}
     # drop persons not touched by a fault row
     from sim.c01 import drop_rows
@@ -502,7 +519,7 @@ def replay_case(case: dict) -> dict:
         bad = df
         for f in case["faults"]:
             bad = apply_fault(bad, f, types)
-        data = {k: bad[k] for k in bad.columns} if case.get("form") == "dict" and all(f["cls"] != "F8" for f in case["faults"]) else bad
+        data = {k: bad[k] for k in bad.columns} if case.get("form") in ("dict", "dict_idx") and all(f["cls"] != "F8" for f in case["faults"]) else bad
         res = compare.run_call(data, params, functions)
         return {"violated": res[0] != "exc", "outcome": res[0] if res[0] != "exc" else f"{res[1]}: {res[2][:200]}"}
     base = compare.run_call(df, params, functions)
